@@ -39,7 +39,10 @@ Init == /\ n = 0
            \/ root = [k |-> "obj", ops |-> <<>>]
 
 \* grow an object: one more member per step (plain, typed key, nested object, nested array) - the map header must follow
-Members == { ReqOp(<<107>>, <<"i16", U(200)>>), [op |-> "req", ki |-> 200, t |-> "str", v |-> S(<<120>>)],
+BaseOps(tag) == <<ReqOp(<<66, tag>>, <<"u8", U(tag)>>), ReqOp(<<67, tag>>, <<"str", S(<<tag>>)>>)>>
+Members == { [op |-> "base", ops |-> BaseOps(49)],
+             [op |-> "base", ops |-> <<ReqOp(<<68>>, <<"i8", U(-3)>>), [op |-> "base", ops |-> BaseOps(50)], ReqOp(<<69>>, <<"bool", <<"bool", TRUE>>>>)>>],
+             ReqOp(<<107>>, <<"i16", U(200)>>), [op |-> "req", ki |-> 200, t |-> "str", v |-> S(<<120>>)],
              [op |-> "req", ki |-> -7, t |-> "u8", v |-> U(255)],
              [op |-> "obj", ks |-> <<111>>, ops |-> <<ReqOp(<<120>>, <<"i64", U(40000)>>), ReqOp(<<121>>, <<"tp_ns", <<"ts", TRUE, Bytes8(0,0,0,0,0,0,0,2), 500000000>>>>)>>],
              [op |-> "arr", ks |-> <<114>>, ops |-> <<ElemOp(<<"vec_u8", <<"bin", <<1, 2>>>>>>), ElemOp(<<"u32", U(70000)>>)>>] }
@@ -54,7 +57,9 @@ Tree == TreeOfRoot(root)
 EncoderConsistent == EncTree(Tree, {}) = Compact(DocOf(Tree))
 DecodesBack == LET e == EncTree(Tree, {}) r == Decode(e, 1) IN r.ok /\ r.v = DocOf(Tree) /\ r.p = Len(e) + 1
 DeviationsNeverShorter == \A D \in DevSets : Len(EncTree(Tree, D)) >= Len(EncTree(Tree, {}))
-MapHeaderCounts == root.k = "obj" => Decode(EncTree(Tree, {}), 1).v = <<"map", DocOf(Tree)[2]>> /\ Len(DocOf(Tree)[2]) = Len(root.ops)
+RECURSIVE CountMembers(_, _)
+CountMembers(ops, i) == IF i > Len(ops) THEN 0 ELSE (IF ops[i].op = "base" THEN CountMembers(ops[i].ops, 1) ELSE 1) + CountMembers(ops, i + 1)
+MapHeaderCounts == root.k = "obj" => Decode(EncTree(Tree, {}), 1).v = <<"map", DocOf(Tree)[2]>> /\ Len(DocOf(Tree)[2]) = CountMembers(root.ops, 1)
 
 Export == PrintT(<<"GEN", ToJson([root |-> root])>>)
 =============================================================================
